@@ -640,6 +640,8 @@ def _d6_header_lines(ctx):
     ck.expect(okc, 'C07-D6', gh.qual, "status line cut at b'\\n' (the block pattern accepts bare LF line ends)",
               'the status line is cut at CRLF only although the header block pattern (and the HTTP reader) accept bare LF: for such a '
               'response the fields stay glued to the status line and the MIME column is lost', gh.loc(cuts[0]) if cuts else gh.loc())
+    from .common import header_name_key_rule
+    header_name_key_rule(ctx, 'C07-D6')
     # unfolding
     uf = repo.func('wpull.namevalue:unfold_lines')
     cont = None
